@@ -654,9 +654,9 @@ Qed.
 (* ================================================================== *)
 
 (* (a) what sync_revision_claims establishes, starting from no claims: every key is
-   recorded once; its claimant is a revision of the list and that revision still lists
-   the key; every listed key that the latest revision desires has a claimant; the
-   returned revisions keep only rolling groups of the originals, unfiltered. *)
+   recorded once; its claimant is a revision of the list and that revision lists the key;
+   every listed key has a claimant; each returned revision lists only keys the original
+   listed. *)
 Theorem C09_claims_after_sync_revision_claims c ds prs prs' cl' :
   sync_revision_claims c ds 0 prs [] = (prs', cl') ->
   NoDup (map fst cl') /\
@@ -667,14 +667,14 @@ Theorem C09_claims_after_sync_revision_claims c ds prs prs' cl' :
      find_desired ds g kd n <> None -> claimant cl' (g, kd, n) <> None) /\
   (forall m p', nth_error prs' m = Some p' ->
      exists p, nth_error prs m = Some p /\
-       forall ck, In ck (rev_children (pr_rev p')) ->
-                  In ck (rev_children (pr_rev p)) /\ is_rolling c (ck_group ck) (ck_kind ck) = true).
+       forall k, lists (pr_rev p') k = true -> lists (pr_rev p) k = true).
 Proof.
-  intros Hs. apply sync_revision_claims_ok in Hs. destruct Hs as [Sl Ss Sm Sn Sc Snd].
+  intros Hs. apply sync_revision_claims_ok in Hs. pose proof (sc_complete _ _ _ _ _ _ _ Hs) as Sc.
+  destruct Hs as [Sl Ss Sm Sn Sli Snd].
   split; [apply Snd; constructor|]. split; [exact Sl|]. split; [|split; [exact Sc|]].
   - intros k j Hk. destruct (Sn k j Hk) as [H|(_ & _ & p' & Hp & Hl)]; [discriminate|].
     rewrite Nat.sub_0_r in Hp. eauto.
-  - intros m p' Hm. destruct (Ss m p' Hm) as (p & Hp & _ & _ & _ & _ & _ & Hsub). eauto.
+  - intros m p' Hm. destruct (Ss m p' Hm) as (p & Hp & _ & _ & _ & _ & _ & Hsub & _). eauto.
 Qed.
 
 (* the first revision in the list wins: an existing claimant is never changed *)
@@ -682,11 +682,25 @@ Theorem C09_first_claimant_wins c ds i prs cl prs' cl' k j :
   sync_revision_claims c ds i prs cl = (prs', cl') -> claimant cl k = Some j -> claimant cl' k = Some j.
 Proof. intros Hs. apply sync_revision_claims_ok in Hs. apply (sc_mono _ _ _ _ _ _ _ Hs). Qed.
 
-(* FINDING (counterexample to "each name is listed by at most one revision afterwards"):
-   claims_of_revision keeps a child-kind group unfiltered as soon as one of its names
-   survives.  The latest revision r0 lists Thing [a]; the older r1 lists Thing [a; b]; the
-   hook desires a and b.  r0 claims a, r1 claims b and keeps its whole group: a is now
-   listed by both revisions although its claimant is r0. *)
+(* claims_of_revision now keeps, of each group, exactly the names this revision newly
+   claims.  Hence, with NO proviso on the input: after sync_revision_claims every key is
+   listed by at most one revision, and a listed key is of a rolling kind, desired by the
+   latest revision, and claimed by exactly the revision that lists it. *)
+Theorem C09_claims_exclusive c ds prs prs' cl' :
+  sync_revision_claims c ds 0 prs [] = (prs', cl') ->
+  (forall k, count_listing prs' k <= 1) /\
+  (forall m p' g kd n, nth_error prs' m = Some p' -> lists (pr_rev p') (g, kd, n) = true ->
+     is_rolling c g kd = true /\ find_desired ds g kd n <> None /\ claimant cl' (g, kd, n) = Some m).
+Proof.
+  intros Hs. split.
+  - intros k. apply count_of_excl. intros a b pa pb Ha Hb La Lb.
+    eapply sync_revision_claims_excl; eauto.
+  - intros m p' g kd n Hm Hl. apply sync_revision_claims_ok in Hs.
+    destruct (sc_listed _ _ _ _ _ _ _ Hs m p' g kd n Hm Hl) as (H1 & H2 & _ & H3). auto.
+Qed.
+
+(* the data of the former counterexample (r0 lists Thing [a], the older r1 lists Thing [a; b],
+   the hook desires a and b): r1 now keeps only b *)
 Definition cx9_cfg : ccfg :=
   mkCfg "cc" "v1" "Parent" "parents" true true true (SelReqs [])
         [mkChild "v1" "things" "Thing" true method_rolling_recreate] true false
@@ -702,55 +716,48 @@ Definition cx9_prs : list prev := [mkPrev JNull cx9_r0 cx9_resp cx9_ds; mkPrev J
 Definition cx9_live (n : string) : json := JObj (set_last_applied (obj_map (cx9_thing n)) (cx9_thing n)).
 Definition cx9_observed : umap := [("v1", "Thing", [("a", cx9_live "a"); ("b", cx9_live "b")])].
 
-Example C09_claims_not_exclusive :
+Example C09_claims_exclusive_example :
   let '(prs', cl') := sync_revision_claims cx9_cfg cx9_ds 0 cx9_prs [] in
   claimant cl' ("", "Thing", "a") = Some 0 /\
   claimant cl' ("", "Thing", "b") = Some 1 /\
-  map (fun p => rev_children (pr_rev p)) prs' =
-    [[mkRck "" "Thing" ["a"]]; [mkRck "" "Thing" ["a"; "b"]]] /\
-  count_listing prs' ("", "Thing", "a") = 2.
+  map (fun p => rev_children (pr_rev p)) prs' = [[mkRck "" "Thing" ["a"]]; [mkRck "" "Thing" ["b"]]].
 Proof. vm_compute. repeat split. Qed.
 
-(* ... and it survives the whole step: both children are live and up to date, the rollout
-   is reported complete, b moves to r0 for free, and r1 is kept by prune because it still
-   lists a.  (The next sync drops it: r0 then claims both names.) *)
-Example C09_stale_listing_survives_sync :
+(* ... and after the whole step (both children live and up to date: b moves to r0 for
+   free) the emptied r1 is pruned *)
+Example C09_emptied_revision_pruned_example :
   exists prs2,
     sync_rolling_update cx9_cfg "" cx9_observed cx9_prs = Some (prs2, RComplete) /\
-    map (fun p => rev_children (pr_rev p)) (prune prs2) =
-      [[mkRck "" "Thing" ["a"; "b"]]; [mkRck "" "Thing" ["a"]]] /\
-    count_listing (prune prs2) ("", "Thing", "a") = 2.
+    map (fun p => rev_children (pr_rev p)) (prune prs2) = [[mkRck "" "Thing" ["a"; "b"]]].
 Proof. eexists. vm_compute. repeat split. Qed.
 
-(* (b) what is true.  Original wording: "for the revisions that sync_rolling_update + prune
-   produce, every claim key of a rolling kind occurs in the children of at most one
-   revision, provided it occurred in at most one after sync_revision_claims".  This holds
-   with one more proviso (boolean): after sync_revision_claims no revision lists a
-   (group, kind) twice or a name twice within a group — remove_child removes one
-   occurrence only. *)
+(* (b) after sync_rolling_update + prune every key is listed by at most one revision.
+   One proviso remains, on the INPUT revisions (boolean): no revision lists a
+   (group, kind) twice — remove_child only looks at the first group of that kind. *)
 Definition all_simple (prs : list prev) : bool := forallb (fun p => simple (pr_rev p)) prs.
+Definition all_gk_unique (prs : list prev) : bool :=
+  forallb (fun p => gk_unique (rev_children (pr_rev p))) prs.
 
-Theorem C09_revision_names_unique_claim_partial c pns observed latest rest prs2 st :
+Lemma unique_claim_core c pns observed latest rest prs2 st :
   sync_rolling_update c pns observed (latest :: rest) = Some (prs2, st) ->
-  let prs1 := fst (sync_revision_claims c (pr_desired latest) 0 (latest :: rest) []) in
-  all_simple prs1 = true ->
-  (forall k, count_listing prs1 k <= 1) ->
+  all_simple (fst (sync_revision_claims c (pr_desired latest) 0 (latest :: rest) [])) = true ->
   forall k, count_listing (prune prs2) k <= 1.
 Proof.
   intros Hsync. unfold sync_rolling_update in Hsync.
   destruct (sync_revision_claims c (pr_desired latest) 0 (latest :: rest) []) as [prs1 cl1] eqn:Hc.
-  cbn [fst]. intros Hsimple Hcount k.
+  cbn [fst]. intros Hsimple k.
   destruct (first_pass c pns observed prs1 cl1) as [prsA clA] eqn:Hf.
   destruct (second_pass c pns observed prsA clA) as [prs3 st3] eqn:Hs2.
   destruct prs3 as [|l3 rest3]; [discriminate|].
   destruct (set_condition (hr_status (pr_resp l3)) "Updated" (rollout_condition st3 (rev_name (pr_rev l3))))
     as [status'|]; [|discriminate].
   injection Hsync as <- <-.
-  apply sync_revision_claims_ok in Hc. destruct Hc as [Sl Ss Sm Sn Sc Snd].
+  pose proof Hc as Hc0. apply sync_revision_claims_ok in Hc.
+  pose proof (sc_complete _ _ _ _ _ _ _ Hc) as Sc. destruct Hc as [Sl Ss Sm Sn Sli Snd].
   (* the invariant holds after the claims pass *)
   assert (Hinv : inv (pr_desired latest) prs1 cl1).
   { constructor.
-    - intros k'. apply excl_of_count, Hcount.
+    - intros k' a b pa pb Ha Hb La Lb. eapply sync_revision_claims_excl; eauto.
     - intros k' j Hk'. destruct (Sn k' j Hk') as [H|(_ & _ & p' & Hp & Hl)]; [discriminate|].
       rewrite Nat.sub_0_r in Hp. eauto.
     - exact Sc.
@@ -772,9 +779,47 @@ Proof.
   destruct (listsP l3 k); cbn [List.length] in *; lia.
 Qed.
 
-(* the provisos are satisfiable: the side condition of items 1-2 holds of an ordinary
-   configuration, and the hypotheses of the item-3 theorem hold when the older revision
-   lists only what the latest does not (r0: [a], r1': [b]) *)
+Theorem C09_revision_names_unique_claim c pns observed latest rest prs2 st :
+  sync_rolling_update c pns observed (latest :: rest) = Some (prs2, st) ->
+  all_gk_unique (latest :: rest) = true ->
+  forall k, count_listing (prune prs2) k <= 1.
+Proof.
+  intros Hsync Hgk. eapply unique_claim_core; [exact Hsync|].
+  destruct (sync_revision_claims c (pr_desired latest) 0 (latest :: rest) []) as [prs1 cl1] eqn:Hc.
+  cbn [fst]. apply sync_revision_claims_ok in Hc.
+  unfold all_simple. apply forallb_forall. intros p' Hin.
+  apply In_nth_error in Hin. destruct Hin as [m Hm].
+  destruct (sc_same _ _ _ _ _ _ _ Hc m p' Hm) as (p & Hp & _ & _ & _ & _ & _ & _ & Hsim).
+  apply Hsim. unfold all_gk_unique in Hgk. rewrite forallb_forall in Hgk.
+  apply Hgk. eapply nth_error_In; eauto.
+Qed.
+
+(* the earlier form (hypotheses on the result of the claims pass) still holds; its second
+   hypothesis is now redundant (C09_claims_exclusive) *)
+Theorem C09_revision_names_unique_claim_partial c pns observed latest rest prs2 st :
+  sync_rolling_update c pns observed (latest :: rest) = Some (prs2, st) ->
+  let prs1 := fst (sync_revision_claims c (pr_desired latest) 0 (latest :: rest) []) in
+  all_simple prs1 = true ->
+  (forall k, count_listing prs1 k <= 1) ->
+  forall k, count_listing (prune prs2) k <= 1.
+Proof. intros Hsync prs1 Hsimple _. eapply unique_claim_core; eauto. Qed.
+
+(* the remaining proviso is needed: an old revision that lists the kind Thing twice
+   ([a] and [b]) keeps b when b moves to the latest revision, because remove_child only
+   edits the first Thing group *)
+Definition cx9_r0e : revision := mkRevision (cx9_revobj "r0") (JObj []) [].
+Definition cx9_r1d : revision :=
+  mkRevision (cx9_revobj "r1") (JObj []) [mkRck "" "Thing" ["a"]; mkRck "" "Thing" ["b"]].
+Definition cx9_prs_d : list prev := [mkPrev JNull cx9_r0e cx9_resp cx9_ds; mkPrev JNull cx9_r1d cx9_resp cx9_ds].
+
+Example C09_duplicate_group_counterexample :
+  all_gk_unique cx9_prs_d = false /\
+  exists prs2 st,
+    sync_rolling_update cx9_cfg "" cx9_observed cx9_prs_d = Some (prs2, st) /\
+    count_listing (prune prs2) ("", "Thing", "b") = 2.
+Proof. split; [reflexivity|]. eexists. eexists. vm_compute. repeat split. Qed.
+
+(* the provisos are satisfiable *)
 Example C09_rev_res_separate_ok : rev_res_separate cx9_cfg = true.
 Proof. vm_compute. reflexivity. Qed.
 
@@ -786,6 +831,9 @@ Example C09_unique_claim_hypotheses_ok :
   all_simple prs1 = true /\
   count_listing prs1 ("", "Thing", "a") = 1 /\ count_listing prs1 ("", "Thing", "b") = 1.
 Proof. vm_compute. repeat split. Qed.
+
+Example C09_gk_unique_ok : all_gk_unique cx9_prs = true.
+Proof. reflexivity. Qed.
 
 Print Assumptions C09_revisions_before_children.
 Print Assumptions C09_revisions_before_children_run.
@@ -799,8 +847,11 @@ Print Assumptions C09_failed_revision_no_children.
 Print Assumptions C09_failed_revision_no_children_run.
 Print Assumptions C09_claims_after_sync_revision_claims.
 Print Assumptions C09_first_claimant_wins.
-Print Assumptions C09_claims_not_exclusive.
-Print Assumptions C09_stale_listing_survives_sync.
+Print Assumptions C09_claims_exclusive.
+Print Assumptions C09_claims_exclusive_example.
+Print Assumptions C09_emptied_revision_pruned_example.
+Print Assumptions C09_revision_names_unique_claim.
+Print Assumptions C09_duplicate_group_counterexample.
 Print Assumptions C09_revision_names_unique_claim_partial.
 Print Assumptions C09_only_ownership_edits_before_hooks.
 Print Assumptions C09_updates_before_hooks_are_ownership_edits.
